@@ -1057,6 +1057,9 @@ func (ro *RedisOutput) sendCmdsBatch(replayWait usync.WaitCloser, conn client.Re
 				delayNs:    delayNs,
 			}:
 			case <-replayWait.Context().Done():
+				// the batch has been dispatched, it must never be sent again
+				cmdQueue = cmdQueue[:0]
+				queuedByteSize = 0
 				return replayWait.Error()
 			}
 		} else {
